@@ -42,7 +42,7 @@ CHECKS = {
    text="Fault-free histories are compared with a set-union reference model and write/read idempotence; for a crashing run every I/O event index x {kill before, kill after, torn write} is enumerated, and the following successful run must either report the damaged registry or keep every library registered before the crash.",
    note="Kill model (process death), not power loss: data for which write() returned is durable. Trusted: the small registry parser in the driver.",
    design="§3 C47"),
- "C40": dict(ready=False, level="fault_enumeration", engine="callback-fault",
+ "C40": dict(ready=True, level="fault_enumeration", engine="callback-fault",
    technique="fault enumeration at the behaviour-protocol seam: mock behaviour with a fault plan through the real Integrate.hxx / strain-measure wrappers, plus generated behaviours calling a fault-plan provider; bitwise snapshot oracle on s1",
    text="Every (stage x failure mode x request class x hypothesis x strain measure) combination is enumerated for the mock tier; after a call returning -1 the caller's s1 thermodynamic forces, internal state variables and energies must be bitwise unchanged.",
    note="Trusted: the mock implements the interface the templates require; generated-tier behaviours are produced by the freshly built mfront.",
